@@ -155,8 +155,19 @@ def shard(p):
         for k in kinds:
             acc.seen("error_kinds_in_multi_result_queries", k)
         readable = {}
-        for _ in range(p["n"]):
-            q = gen_query(rng, V, p["facts"], {"vocab": p["vocab"], "corpus": p["corpus"]} if p.get("vocab") else None)
+        # every pair of documented units once as a product and as a quotient through the binary (this shard's share): a rendering rule
+        # that depends on WHICH units stand next to each other (seed C19-j: the binary spells out `gforce` when a kilogram is in the
+        # same unit) is a two-way interaction that random compounds of ~90 units almost never draw
+        per_unit = {}
+        for e in V.entries:
+            if e["bare"] and (e["unit"] not in per_unit or len(e["word"]) < len(per_unit[e["unit"]]["word"])):
+                per_unit[e["unit"]] = e
+        uw = sorted(e["word"] for e in per_unit.values())
+        pairs_ = [(a, b) for i_, a in enumerate(uw) for b in uw[i_ + 1:]]
+        forced_q = ["(2 %s*%s) (1 %s/%s)" % (a, b, a, b) for a, b in pairs_[p["shard"] % 16::16]]
+        acc.count("unit_pair_matrix_queries_through_the_binary", len(forced_q))
+        for it_ in range(p["n"] + len(forced_q)):
+            q = forced_q[it_ - p["n"]] if it_ >= p["n"] else gen_query(rng, V, p["facts"], {"vocab": p["vocab"], "corpus": p["corpus"]} if p.get("vocab") else None)
             exact_mode = rng.random() < 0.5
             # the query as several shell arguments (the binary joins them with one space): the query IS the joined text
             argv_q = [q]
